@@ -449,6 +449,9 @@ def run(ctx):
     check_key_agreement(ctx)
     check_asserted_fresh(ctx, reach)
     check_fresh_definition_types(ctx)
+    check_decoder_eof(ctx)
+    import c12
+    c12.lexical(engine.AliasCtx(ctx, {"R12.10": "R14.7"}))
     # the parser's tabled asserts (`!types.is_empty()` …) rest on decisions taken through a Lookahead: a stale lookahead
     # makes them reachable (C12's R12.8 typestate, recorded here as R14.7)
     import c12_grammar
@@ -640,6 +643,26 @@ def check_fresh_definition_types(ctx):
     ctx.ob("R14.10", "count", n >= 6, "declared-type constructions checked: %d" % n, nontrivial=False)
 
 
+def check_decoder_eof(ctx):
+    """R14.9 `whole-input`: Package::from_bytes owns the complete byte string, so it calls the streaming parser with
+    `eof = true`; the `Chunk::NeedMoreData => panic!("all data should be present")` belief holds only then (with a computed
+    flag a truncated component asks for more data and panics instead of being reported as malformed)."""
+    db, prov = ctx.db, ctx.prov
+    n = 0
+    for f in db.fns.values():
+        if f.crate != "wac_types" or f.from_expansion:
+            continue
+        for t in f.calls():
+            if (t.path or "").endswith("wasmparser::parser::Parser::parse") or ((t.path or "").endswith("Parser::parse") and "wasmparser" in (t.path or "")):
+                n += 1
+                v = prov.const_of(f, t.args[2]) if len(t.args) > 2 else None
+                ctx.ob("R14.9", "whole-input|%s" % f.id.rsplit("::", 1)[-1], v == ("bool", True),
+                       "the streaming parser is told that the input is complete (eof = true)" if v == ("bool", True) else
+                       "Parser::parse is called with a computed `eof` flag: on truncated input it answers NeedMoreData, which the decoder treats as impossible (panic)",
+                       site="%s in %s" % (t.span, f.id))
+    ctx.ob("R14.9", "whole-input-sites", n >= 1, "streaming parse calls: %d" % n, nontrivial=False)
+
+
 def check_key_agreement(ctx):
     """R14.8: writer/reader key agreement for the encoder's name-keyed scope maps.  `Scope::resources` and
     `Scope::instances` are read with the panicking `Index` operator under a key taken from the type model
@@ -695,6 +718,23 @@ def check_key_agreement(ctx):
                    "the indexed key is looked up in the same scope map first" if keyed else
                    "Scope::%s is indexed with `[]` under a key that is never tested for presence in the current scope: a valid component whose item lives in an enclosing scope "
                    "(or is only reachable through an alias) makes encode panic with `no entry found for key`" % m, site="%s in %s" % (t.span, f.id))
+    # non-panicking readers of Scope::instances ("is this interface already imported here?") ask under the writers' key too:
+    # a lookup under the *import name* misses an interface that was imported under its id and imports it a second time
+    for f in db.fns.values():
+        if f.crate != "wac_graph" or f.from_expansion:
+            continue
+        for t in f.calls():
+            p_ = t.path or ""
+            if p_.rsplit("::", 1)[-1] not in ("get", "contains_key") or not ("IndexMap" in p_ or "HashMap" in p_):
+                continue
+            if "instances" not in {nn for nn, o, v in narrow(prov, f, t.args[0]).fields if o == "wac_graph::encoding::Scope"}:
+                continue
+            ks = prov.slice(f, t.args[1])
+            okk = ks.has_field("id", "component::Interface")
+            ctx.ob("R14.8", "lookup-key|instances|%s" % f.id.rsplit("::", 1)[-1], okk,
+                   "Scope::instances is consulted under the interface id it is filled under" if okk else
+                   "Scope::instances is filled under Interface::id but consulted here under another string (e.g. the import name): an interface already imported under its id "
+                   "is not found and is imported again (two distinct copies of its resources)", site="%s in %s" % (t.span, f.id))
     ctx.ob("R14.8", "count", n >= 4 and {"resources", "instances"} <= set(R), "name-keyed scope-map inserts checked: %d (maps indexed: %s)" % (n, sorted(R)), nontrivial=False)
 
 
